@@ -477,6 +477,10 @@ def classToks (c : String) (bases : List (List String)) : List Tok :=
   if bases.isEmpty then [.name "class", .name c, .colon]
   else .name "class" :: .name c :: .lpar :: (joinComma (bases.map dottedToks) ++ [.rpar, .colon])
 
+/-- the names are bindable identifiers and the annotations are well-formed -/
+def textDomain (anns : String → Ann) (ps : List Param) : Bool :=
+  ps.all (fun p => identOk p.name && (anns p.name).wf)
+
 /-! ### methods and functions re-rendered from `inspect.signature` (`_get_list_of_params_with_type`) -/
 
 /-- one parameter as `inspect.signature` reports it, with the annotation / default the generator will print -/
